@@ -558,7 +558,7 @@ func cmdCheck(args []string) int {
 	// failed obligations
 	discharged := 0
 	violations := 0
-	var knownHit []string
+	var knownHit, foreignHit []string
 	knownUnproved := 0
 	var samples []map[string]interface{}
 	var failedSamples []map[string]interface{}
@@ -594,6 +594,21 @@ func cmdCheck(args []string) int {
 				continue
 			}
 		}
+		// an obligation of a function this property only depends on, recorded as a finding of the
+		// property it belongs to: reported there; here the dependency is listed as an assumption
+		foreign := false
+		for _, k := range known {
+			if !k.Fixed && k.Property != prop && k.Except == "" && normObl(k.Obligation) == normObl(full) {
+				fmt.Printf("note: %s is a known finding of property %s (reported by that property's check); %s only depends on the function\n", full, k.Property, prop)
+				foreignHit = append(foreignHit, full+" (known finding of "+k.Property+")")
+				knownUnproved++
+				foreign = true
+				break
+			}
+		}
+		if foreign {
+			continue
+		}
 		violations++
 		os.MkdirAll(replayDir+"/"+prop, 0o755)
 		rp := fmt.Sprintf("%s/%s/%s.json", replayDir, prop, sanitize(full))
@@ -617,6 +632,9 @@ func cmdCheck(args []string) int {
 	}
 	sort.Strings(asm)
 	asm = append(asm, "go/packages+go/types+go/ssa front end and the sonicvc VC generator are trusted; Go semantics as modelled in DESIGN.md §2 (linux/amd64, allocation succeeds, slices well-formed)")
+	for _, k := range foreignHit {
+		asm = append(asm, "contract of a dependency not established: "+k)
+	}
 	for _, k := range knownHit {
 		asm = append(asm, "known finding (obligation discharged only under its recorded exclusion): "+k)
 	}
